@@ -41,7 +41,8 @@ Definition fmul (a b : option N) : option N :=
   match a, b with Some x, Some y => fin (rnd53 (x * y)) | _, _ => None end.
 
 Inductive lres := LZero | LVal (e : option N).
-(** mod.rs:137-143: `for size in sizes { if size == 0 { return Ok(0) } elements *= size as f64 }` *)
+(** THE CODE BEFORE commit 1cc30f2 (kept as the `_pre` model; see [size_guard_refuted_pre]):
+    `for size in sizes { if size == 0 { return Ok(0) } elements *= size as f64 }` *)
 Fixpoint size_loop (acc : option N) (dims : list N) : lres :=
   match dims with
   | [] => LVal acc
@@ -52,7 +53,7 @@ Inductive vres := Accept (n : N) | Reject.
 Definition u32max : N := 4294967295.
 (** [L] = floor of `max_mb * 1024f64.powi(2)` (4096 MB = 2^32 by default, UIUA_MAX_MB otherwise);
     an integer-valued f64 is `> thr` iff it is `> floor thr` *)
-Definition validate_size (es : N) (dims : list N) (L : N) : vres :=
+Definition validate_size_pre (es : N) (dims : list N) (L : N) : vres :=
   match size_loop (Some 1) dims with
   | LZero => Accept 0                                   (* mod.rs:139-141 *)
   | LVal None => Reject                                 (* inf > u32::MAX *)
@@ -64,7 +65,30 @@ Definition validate_size (es : N) (dims : list N) (L : N) : vres :=
       end
   end.
 
+(** THE CURRENT CODE (commit 1cc30f2, mod.rs:137-157): zero dimensions are skipped and remembered;
+    `if any_zero { if elements > isize::MAX as f64 { Err } else { Ok(0) } }` *)
+Fixpoint size_loop2 (acc : option N) (z : bool) (dims : list N) : option N * bool :=
+  match dims with
+  | [] => (acc, z)
+  | d :: t => if d =? 0 then size_loop2 acc true t else size_loop2 (fmul acc (of_usize d)) z t
+  end.
+(** `isize::MAX as f64` = 2^63 *)
+Definition isize_max_f : N := rnd53 9223372036854775807.
+Definition validate_size (es : N) (dims : list N) (L : N) : vres :=
+  match size_loop2 (Some 1) false dims with
+  | (None, _) => Reject                                 (* inf > anything *)
+  | (Some e, true) => if isize_max_f <? e then Reject else Accept 0      (* mod.rs:146-156 *)
+  | (Some e, false) =>
+      if u32max <? e then Reject else                   (* mod.rs:158 *)
+      match fmul (Some e) (of_usize es) with
+      | None => Reject
+      | Some sz => if L <? sz then Reject else Accept e
+      end
+  end.
+
 Definition prod (dims : list N) : N := fold_right N.mul 1 dims.
+(** the dimensions that are not zero *)
+Definition nz (dims : list N) : list N := filter (fun d => negb (d =? 0)) dims.
 Definition usize_max : N := 18446744073709551615.
 
 (** tie helper: 0 = reject, n+1 = accept n *)
